@@ -263,5 +263,62 @@ func dec6(b []byte) (out map[string]any, d dhcpv6.DHCPv6) {
 		return map[string]any{"ok": false}, nil
 	}
 	reuse(in) // the caller's buffer receives the next datagram: the decoded value is read after that
-	return map[string]any{"ok": true, "val": proj6(d)}, d
+	out = map[string]any{"ok": true, "val": proj6(d)}
+	if c := untypedKnown(d); c >= 0 {
+		// an option of a code the library has a type for came back as an opaque value: whatever its bytes, it is not the
+		// typed value the decoder owes for that code (no field, no layout rule applied)
+		out["val"] = map[string]any{"mt": -3, "option-of-known-type-decoded-as-opaque": c}
+	}
+	return out, d
+}
+
+
+// untypedKnown returns the code of the first option in the main option space (message, relay levels, the containers that
+// nest main-space options) whose code has a type in the library but whose value is an *OptionGeneric; -1 if none
+func untypedKnown(d dhcpv6.DHCPv6) int {
+	known := map[int]bool{}
+	for _, c := range v6Known {
+		known[c] = true
+	}
+	var walk func(os dhcpv6.Options) int
+	walk = func(os dhcpv6.Options) int {
+		for _, o := range os {
+			if _, g := o.(*dhcpv6.OptionGeneric); g && known[int(o.Code())] {
+				return int(o.Code())
+			}
+			var sub dhcpv6.Options
+			switch x := o.(type) {
+			case *dhcpv6.OptIANA:
+				sub = x.Options.Options
+			case *dhcpv6.OptIATA:
+				sub = x.Options.Options
+			case *dhcpv6.OptIAPD:
+				sub = x.Options.Options
+			case *dhcpv6.OptIAAddress:
+				sub = x.Options.Options
+			case *dhcpv6.OptIAPrefix:
+				sub = x.Options.Options
+			case *dhcpv6.Opt4RD:
+				sub = x.FourRDOptions.Options
+			}
+			if c := walk(sub); c >= 0 {
+				return c
+			}
+			if o.Code() == dhcpv6.OptionRelayMsg {
+				if m, ok := field(o, "Msg").Interface().(dhcpv6.DHCPv6); ok && m != nil {
+					if c := untypedKnown(m); c >= 0 {
+						return c
+					}
+				}
+			}
+		}
+		return -1
+	}
+	switch m := d.(type) {
+	case *dhcpv6.Message:
+		return walk(m.Options.Options)
+	case *dhcpv6.RelayMessage:
+		return walk(m.Options.Options)
+	}
+	return -1
 }
